@@ -391,8 +391,22 @@ def check_order(case, ctx):
             Jr = float(np.sum((chain_eval(case, ref, i, x) - y) ** 2))
         if math.isfinite(Jg) and abs(Jg - Jr) <= 1e-4 * max(Jr, 1e-12) + 1e-8 * float(np.sum(y * y)):
             continue
+        # is the function at least a least-squares fit of the final data given the final state of the functions it
+        # depends on (another local optimum), or is it not a fit of the final state at all (stale data / stale conditioner)?
+        rngp = np.random.default_rng(12345)
+        better = False
+        for _ in range(48):
+            q = dict(got)
+            q[i] = got[i] * (1 + (10.0 ** rngp.uniform(-3, -1)) * rngp.standard_normal(len(got[i])))
+            with np.errstate(all="ignore"):
+                Jq = float(np.sum((chain_eval(case, q, i, x) - y) ** 2))
+            if math.isfinite(Jq) and Jq < Jg * (1 - 0.02) - 1e-8 * float(np.sum(y * y)):
+                better = True
+                break
+        degenerate = not (Jg <= 1e3 * float(np.sum(y * y)) and Jr <= 1e3 * float(np.sum(y * y)))  # both runs diverged (e.g. x^-280)
+        kind = "not_a_fit_of_the_final_state" if (better and not degenerate) else "other_local_optimum"
         ctx.violation(
-            f"order_dependent:{'first_fit' if len(rounds) == 1 else 'refit'}:chain{n}",
+            f"order_dependent:{'first_fit' if len(rounds) == 1 else 'refit'}:{kind}:chain{n}",
             f"function {i} ({case['funcs'][i]['shape']}): parameters {got[i].tolist()} (J={Jg!r}) with declaration order {case['decl_order']} and call orders "
             f"{[r['order'] for r in rounds]}, but {ref[i].tolist()} (J={Jr!r}) when fitted in dependency order {dep_order}",
         )
@@ -441,7 +455,7 @@ def strat_order(draw, tier):
 
 
 RATE_LIMITS = [
-    ("order_dependent:refit", "order/rounds=2", 0.03, 60),
+    ("order_dependent:refit:other_local_optimum", "order/rounds=2", 0.03, 60),
     ("not_optimal:constrained", "fit/constraints=active", 0.04, 60),
 ]
 
